@@ -117,7 +117,9 @@ def r1_same_origin(ctx):
     scope_e = [e for e in ev.events if e.callee[0] == 'func' and e.callee[1].endswith('_make_credential_scope')]
     key_e = [e for e in ev.events if e.callee[0] == 'func' and e.callee[1].endswith('_make_signature_key')]
     ctx.floor('C16.R1', 'scope / signing-key construction', min(len(scope_e), len(key_e)))
-    okc = len(nows) == 1 and all(_kw(e, 'date') is not None and contains(_kw(e, 'date'), lambda y: y in nows) for e in scope_e + key_e) and _kw(scope_e[0], 'date') == _kw(key_e[0], 'date')
+    # syntactically, too: one clock-reading call in the (helper-expanded) function - two evaluations of the same helper line are two readings
+    clock_calls = [c for c in ast.walk(pr.node) if isinstance(c, ast.Call) and (dotted(c.func) or '').rsplit('.', 1)[-1] in ('utcnow', 'now', 'time', 'gmtime', 'time_ns') and (dotted(c.func) or '').split('.')[0] in ('datetime', 'time')]
+    okc = len(clock_calls) == 1 and len(nows) == 1 and all(_kw(e, 'date') is not None and contains(_kw(e, 'date'), lambda y: y in nows) for e in scope_e + key_e) and _kw(scope_e[0], 'date') == _kw(key_e[0], 'date')
     ctx.check(
         okc,
         'C16.R1',
